@@ -239,8 +239,17 @@ def run_stock(kind, grid, lt, quad, extra, shapes, driver, via="ctor", int_dtype
         getattr(s, which).values[...] = dv * 0.5 + 1.0
         try:
             s.compute()
+            s.get_outflow_by_cohort()  # (the results of the earlier computation were looked at)
+            s.get_stock_by_cohort()
         except Exception:
             pass
+        if recompute == "first-only":  # only the FIRST parameter goes back to its value, the others were not changed at all
+            first = list(base)[0]
+            lm.set_prms(**{nm: (prms_now[nm] if nm == first else prms_now[nm] + 0.75) for nm in base})
+            try:
+                s.compute()
+            except Exception:
+                pass
         lm.set_prms(**prms_now)
         getattr(s, which).values[...] = dv
     s.compute()
